@@ -173,6 +173,16 @@ def convert_trace(raw_path, out_path, results, hdr=8):
         if ev == "case.end":
             cur = None
             continue
+        if ev == "case.skip":
+            # drop what was recorded for this case (see harness: its follow-on message may race)
+            while out and out[-1]["e"] != "Case":
+                out.pop()
+                index.pop()
+            if out:
+                out.pop()
+                index.pop()
+            cur = None
+            continue
         if cur is None:
             continue
         if a == 1:  # the sending thread, inside OsIpcSender::send
@@ -400,3 +410,32 @@ def campaign(pid, configs, variant="os", max_trace_cases=4000, liveness=True):
 def vlib_replay(pid, name, obj):
     from vlib import write_replay
     return write_replay(pid, name, obj)
+
+
+def replay_one(rp):
+    """./check replay <file> for a frag-kind violation: re-run exactly that case."""
+    pid = rp["property"]
+    if rp.get("kind") == "frag":
+        build_harness("os")
+        wd = workdir("replay")
+        results, _ = replay(wd, "replay", rp["sb"], [rp["case"]], trace=False)
+        res = results[0] if results else None
+        v, _ = judge(rp["case"], rp["case"].get("model"), res or {})
+        print(json.dumps({"case": rp["case"], "observed": res}, indent=1))
+        if v or res is None:
+            print("VIOLATION property=%s replay=%s" % (pid, "(this file)"))
+            return 1
+        print("case passes now")
+        return 0
+    if rp.get("kind") == "values":
+        build_harness(rp["variant"])
+        env = {"IPC_VERIF_SENDBUF": rp["sb"]} if rp.get("sb") else {}
+        p = run_harness(rp["variant"], ["values"], env=env, stdin=json.dumps(rp["job"]) + "\n", timeout=1500)
+        print(p.stdout[-2000:], p.stderr[-2000:])
+        bad = '"failures":[]' not in p.stdout
+        if bad:
+            print("VIOLATION property=%s replay=%s" % (pid, "(this file)"))
+        return 1 if bad else 0
+    print(json.dumps(rp, indent=1)[:4000])
+    print("model/trace level finding: re-run ./check %s" % pid)
+    return 0
